@@ -753,11 +753,11 @@ as
 $$
 select aggregate_objects(jsonb_build_object(data.account_address, data.aggregated))
 from (select distinct on (move.account_address, move.asset) move.account_address,
-                                                            volumes_to_jsonb((move.asset, first(move.post_commit_effective_volumes))) as aggregated
+                                                            volumes_to_jsonb((move.asset, move.post_commit_effective_volumes)) as aggregated
       from moves move
       where move.transactions_seq = tx
         and ledger = _ledger
-      group by move.account_address, move.asset) data
+      order by move.account_address, move.asset, move.seq desc) data
 $$;
 
 create function get_aggregated_volumes_for_transaction(_ledger varchar, tx numeric) returns jsonb
@@ -767,11 +767,11 @@ as
 $$
 select aggregate_objects(jsonb_build_object(data.account_address, data.aggregated))
 from (select distinct on (move.account_address, move.asset) move.account_address,
-                                                            volumes_to_jsonb((move.asset, first(move.post_commit_volumes))) as aggregated
+                                                            volumes_to_jsonb((move.asset, move.post_commit_volumes)) as aggregated
       from moves move
       where move.transactions_seq = tx
         and ledger = _ledger
-      group by move.account_address, move.asset) data
+      order by move.account_address, move.asset, move.seq desc) data
 $$;
 
 create trigger "insert_log"
